@@ -530,7 +530,13 @@ class ExcelCompiler:
         for addr in input_addrs:
             try:
                 if addr in self.cell_map:
-                    walk_dependents(self.cell_map[addr])
+                    input_cell = self.cell_map[addr]
+                    walk_dependents(input_cell)
+                    if isinstance(input_cell, _CellRange):
+                        # the cells of an input range are inputs as well
+                        needed_cells.add(addr)
+                        for member in input_cell:
+                            walk_dependents(self.cell_map[member.address])
                     msg = ''
                 else:
                     msg = 'warning', f'Address {addr} not found in cell_map'
